@@ -17,6 +17,11 @@ T: every recorded trace (Emit, Connect, Req(signal, conn, ids, decision), Flush)
    FlushCompletes.  This is the oracle (request splitting depends on byte sizes and on when
    the worker takes a batch, which level B abstracts); a difference between the level-B
    prediction and an accepted trace is reported as MODEL-DRIFT only.
+   Also decided by the monitor: the channel's own overflow (operation sequences of
+   spec/OtlpChan.tla run against a collector that holds its answers; `accepted` excludes what
+   COUNTED truncations dropped: Trunc events from queue_full_truncated) and transport
+   configurations as such (Built(inert): an emitter whose build failed accepts nothing; one that
+   was built owes delivery; JSON over gRPC, not a valid OTLP configuration, is recorded only).
 """
 import json
 import os
@@ -185,6 +190,69 @@ def make_scenarios(ctx, lines):
     return out
 
 
+OVERFLOW_REGIMES = ["default", "mid"]
+FORMS = [("grpc_json", True), ("grpc_json", False), ("grpc_proto", True), ("malformed_url", False)]
+# forms that are transport configurations the statement quantifies over (HTTP/JSON, HTTP/protobuf,
+# gRPC framing = protobuf over gRPC): spawn either refuses them (inert emitter) or the delivery rules
+# apply.  JSON over gRPC is not a valid OTLP configuration: what the emitter does with it is recorded
+# (a don't-care for delivery); only a panic, a hang or a malformed request would be a violation
+FORMS_IN_SCOPE = {"grpc_proto"}
+DELIVERY_CLAUSES = {"AtLeastOnce", "ExactlyOnceWhenClean", "NoPendingRetry"}
+
+
+def _extra_base(n, proto, gzip, signals):
+    # (the keys the generic bookkeeping reads)
+    return {"sc": n, "proto": proto, "gzip": gzip, "signals": signals, "limit": 1, "unit": 1, "pad": "rep",
+            "events": [], "scripts": {}, "flush_after": [], "model": {}, "predict": {},
+            "resource": n % 2 == 0, "headers": n % 3 == 0, "entry": "builder" if n % 2 else "new"}
+
+
+def make_overflow(ctx, n0):
+    """The OTLP channel's own overflow inside the delivery accounting: the overflowing operation
+    sequences of spec/OtlpChan.tla (sends / takes against capacity K; one model send is a burst
+    of 10 000 / K real events), run against a collector that holds its answers."""
+    r = ctx.tlc("OtlpChan", "OtlpChan_quick.cfg" if ctx.quick else "OtlpChan_thorough.cfg", workers=1, timeout=600,
+                xmx="2g", label="OtlpChan-c12", coverage=False)
+    if r.violated:
+        raise vlib.ToolError("OtlpChan.tla: %s (reported by C09)" % r.violated)
+    seqs = {}
+    for p in vlib.iter_printed(r.out_path, "REPLAY"):
+        d = json.loads(p)
+        if d["lost"]:
+            seqs["".join("s" if o["op"] == "send" else "t" for o in d["ops"])] = d
+    if not seqs:
+        raise vlib.ToolError("OtlpChan: no operation sequence overflows the capacity")
+    rnd = random.Random(ctx.seed * 53 + 5)
+    keys = sorted(seqs)
+    # with and without a take after the first truncation
+    def take_after_truncation(d):
+        first = next(i for i, o in enumerate(d["ops"]) if o["trunc"] > 0)
+        return any(o["op"] == "take" for o in d["ops"][first + 1:])
+    with_take = [k for k in keys if take_after_truncation(seqs[k])]
+    pick = rnd.sample(keys, min(len(keys), 3 if ctx.quick else 24))
+    if with_take and not any(k in with_take for k in pick):
+        pick[-1] = rnd.choice(with_take)
+    out = []
+    for i, k in enumerate(pick):
+        for j, reg in enumerate(OVERFLOW_REGIMES if not ctx.quick or i == 0 else [OVERFLOW_REGIMES[i % 2]]):
+            proto, gzip = TRANSPORTS[(i + j) % len(TRANSPORTS)]
+            sig = SIGS[(i + j) % 3]
+            sc = _extra_base(n0 + len(out), proto, gzip, subsets_with([sig], rnd))
+            sc["overflow"] = {"sig": sig, "cap": seqs[k]["cap"], "regime": reg, "seq": k,
+                              "ops": [o["op"] for o in seqs[k]["ops"]]}
+            out.append(sc)
+    return out
+
+
+def make_forms(n0):
+    out = []
+    for i, (form, gzip) in enumerate(FORMS):
+        sc = _extra_base(n0 + i, "grpc" if form != "malformed_url" else "http_proto", gzip, [SIGS[i % 3]])
+        sc.update({"form": form, "nevents": 3, "resource": False, "headers": False})
+        out.append(sc)
+    return out
+
+
 def split_trace(path):
     segs = {}
     cur = None
@@ -257,6 +325,8 @@ def run(ctx):
         scenarios = [dict(rc["scenario"], sc=0)]
     else:
         scenarios = make_scenarios(ctx, lines)
+        scenarios += make_forms(len(scenarios))
+        scenarios += make_overflow(ctx, len(scenarios))
     bindir = ctx.cargo_build("vh_otlp", bins=["c12_export", "c12_config"])
 
     # Configurations the statement is silent about (malformed / scheme-less URLs, JSON over
@@ -277,19 +347,26 @@ def run(ctx):
             ctx.violation("C12 %s: %s" % (m["what"], json.dumps(m["case"])), {"config_form": m["case"], "detail": m["detail"]},
                           signature="C12 config-form %s" % m["case"].get("form"))
 
-    def run_pass(scens, tag, threads):
+    def run_pass(scens, tag, threads, env=None):
         sc_path = os.path.join(ctx.out, "scenarios%s.ndjson" % tag)
         with open(sc_path, "w") as f:
             for sc in scens:
                 f.write(json.dumps(sc) + "\n")
         tr = os.path.join(ctx.out, "trace%s.ndjson" % tag)
         rp = os.path.join(ctx.out, "report%s.json" % tag)
-        ctx.run_harness(os.path.join(bindir, "c12_export"), [sc_path, tr, rp, threads], timeout=2400)
+        ctx.run_harness(os.path.join(bindir, "c12_export"), [sc_path, tr, rp, threads], timeout=2400, env=env)
         return split_trace(tr), json.load(open(rp))["summaries"]
 
     all_scenarios = scenarios
-    segs, sums = run_pass(all_scenarios, "", 32)
-    summ = {sc["sc"]: sm for sc, sm in zip(all_scenarios, sums)}
+    timed = [sc for sc in all_scenarios if "overflow" not in sc]
+    held = [sc for sc in all_scenarios if "overflow" in sc]
+    segs, sums = run_pass(timed, "", 32) if timed else ({}, [])
+    summ = {sc["sc"]: sm for sc, sm in zip(timed, sums)}
+    if held:
+        # the collector holds its answers for as long as the bursts take: no client timeout
+        segs_h, sums_h = run_pass(held, "-overflow", 6, env={"VH_REQUEST_TIMEOUT_MS": "300000", "VH_FLUSH_TIMEOUT_S": "90"})
+        segs.update(segs_h)
+        summ.update({sc["sc"]: sm for sc, sm in zip(held, sums_h)})
     # Timing guard.  The request timeout is shortened to about a second; when the machine is so
     # loaded that the client times out on requests the collector did not stall (more client
     # timeouts than scripted stalls, or requests whose connection the client had already closed
@@ -298,7 +375,7 @@ def run(ctx):
     # It is run again with little parallelism; if it is slow again it is left undecided.
     def slow(sm):
         return sm["client_timeouts"] > sm["stalls"] or sm["abandoned"] > 0
-    again = [sc for sc in all_scenarios if slow(summ[sc["sc"]])]
+    again = [sc for sc in all_scenarios if slow(summ[sc["sc"]]) and "overflow" not in sc]
     ctx.cov["rerun_for_timing"] = len(again)
     if again:
         segs2, sums2 = run_pass(again, "-again", 4)
@@ -351,6 +428,17 @@ def run(ctx):
             st["faulty"] += 1
         st["resends"] += sum(1 for a, b in zip(reqs, reqs[1:]) if not a["ack"] and a["known"] and b["ids"] == a["ids"])
         st["reconnects"] += max(0, sum(1 for e in seg if e["ev"] == "Connect") - len({e["ep"] for e in reqs}))
+        if sm.get("overflow"):
+            ov = st.setdefault("overflow", {"runs": 0, "truncations": 0, "events": 0, "flushed": 0, "with_take_after_truncation": 0})
+            ov["runs"] += 1
+            ov["truncations"] += sm["overflow"]["truncations"]
+            ov["events"] += sm["overflow"]["emitted"]
+            ov["flushed"] += 1 if sm["flush"] and sm["overflow"]["truncations"] else 0
+            tr_at = [i for i, e in enumerate(seg) if e["ev"] == "Trunc"]
+            fl_at = [i for i, e in enumerate(seg) if e["ev"] == "Flush"]
+            ov["with_take_after_truncation"] += 1 if tr_at and any(tr_at[0] < f < len(seg) - 1 for f in fl_at) else 0
+        if sm.get("form"):
+            st.setdefault("forms", []).append(dict(sm["form"], gzip=sc["gzip"], flush=sm["flush"], clientfails=sm["clientfails"]))
         if sc["unit"] == 0:
             st["real_limit_runs"] += 1
         if sc.get("pad") == "rnd":
@@ -422,7 +510,30 @@ def run(ctx):
     for scn, clauses in sorted(by_sc.items()):
         sc = by_id[scn]
         raws = sorted({e["raw"] for e in segs.get(scn, []) if e["ev"] == "Req"})
-        sig = "C12 %s proto=%s decisions=%s" % (",".join(sorted(set(clauses))), sc["proto"], ",".join(raws))
+        cl = ",".join(sorted(set(clauses)))
+        if "form" in sc:
+            fm = summ[scn].get("form", {})
+            what = ("C12 transport configuration %s%s: spawn accepted it (configuration_failed = 0), the emitter accepted %d events, "
+                    "%d requests reached the collector (which acknowledges everything), %d batch attempts failed in the client, flush "
+                    "returned %s: %s" % (sc["form"], "+gzip" if sc["gzip"] else "", sc["nevents"], fm.get("requests", 0),
+                                          summ[scn]["clientfails"], summ[scn]["flush"], cl))
+            judged = set(clauses) if sc["form"] in FORMS_IN_SCOPE else set(clauses) - DELIVERY_CLAUSES
+            if judged:
+                ctx.violation(what, {"scenario": sc, "clauses": clauses, "trace": segs.get(scn, [])},
+                              signature="C12 config-form %s %s" % (sc["form"], ",".join(sorted(judged))))
+            else:
+                ctx.cov.setdefault("config_form_notes", []).append(what + " (not a configuration the statement covers: recorded only)")
+            continue
+        if "overflow" in sc:
+            ov = sc["overflow"]
+            ctx.violation("C12 with the channel's own overflow (signal %s, %s%s, operations %s, request-size regime %s): %s - an accepted "
+                          "event that no counted truncation accounts for is in no acknowledged request (or a truncation dropped more "
+                          "than the capacity)" % (ov["sig"], sc["proto"], "+gzip" if sc["gzip"] else "", ov["seq"], ov["regime"], cl),
+                          {"scenario": sc, "clauses": clauses, "summary": summ[scn],
+                           "trace": [e if e["ev"] != "Req" else dict(e, ids=len(e["ids"])) for e in segs.get(scn, [])]},
+                          signature="C12 overflow %s sig=%s regime=%s" % (cl, ov["sig"], ov["regime"]))
+            continue
+        sig = "C12 %s proto=%s decisions=%s" % (cl, sc["proto"], ",".join(raws))
         ctx.violation("C12 trace rejected by OtlpTrace.tla: %s (scenario %d, %s%s, signals %s, scripts %s)" % (
             sorted(set(clauses)), scn, sc["proto"], "+gzip" if sc["gzip"] else "", sc["signals"], sc["scripts"]),
             {"scenario": sc, "clauses": clauses, "trace": segs.get(scn, [])}, signature=sig)
@@ -435,6 +546,12 @@ def run(ctx):
                 raise vlib.ToolError("vacuity: no real execution with %s" % k)
         if st["max_request_bytes"] < 1024 * 1024:
             raise vlib.ToolError("vacuity: no request above 1 MiB was sent with the real limit")
+        ov = st.get("overflow", {})
+        if not (ov.get("truncations") and ov.get("flushed") and ov.get("with_take_after_truncation")):
+            raise vlib.ToolError("vacuity: no overflow run with a counted truncation, a successful flush and a take after it: %s" % ov)
+        fm = {f["form"]: f for f in st.get("forms", [])}
+        if not (fm.get("malformed_url", {}).get("inert") and fm.get("grpc_proto", {}).get("requests")):
+            raise vlib.ToolError("vacuity: the configuration-form controls (inert / delivered) did not behave: %s" % fm)
 
     for i in (0, len(scenarios) // 2, len(scenarios) - 1):
         s = dict(scenarios[i])
@@ -447,5 +564,7 @@ def run(ctx):
         "FlushCompletes and SignalsIndependent (StreakK consecutive failures) are bounded-liveness readings that rely on wall-clock margins (flush timeout 30 s vs < 2 s of scaled back-off)",
         "the collector is the harness's own (HTTP/1 hand-rolled, gRPC over the h2 crate); ids are read from the decoded protobuf/JSON bodies (prost types generated by the repository, serde_json)",
         "retry budget exhaustion (10 retries) is outside the scenarios; level B checks it only as gaveUp",
+        "overflow runs: the operation sequences come from spec/OtlpChan.tla (capacity 4; one model send = 2 500 real events against the emitter's 10 000); the worker is parked by a collector that reads requests but holds its answers (request timeout 300 s); queue_full_truncated is sampled after every 500 events, so an event emitted in the same 500 after a truncation counts as possibly dropped by it (bounded by capacity x count)",
+        "configuration forms: the monitor decides every form (Built(inert): an emitter whose build failed accepts nothing); for JSON over gRPC (not a valid OTLP configuration) the delivery clauses are a don't-care - what happens is recorded in coverage.config_form_notes (accepted by spawn, every batch fails in the client with 'unsupported content type', nothing reaches the collector, flush true) and only a panic, a hang or a malformed request would be a violation; malformed / scheme-less URLs and https without TLS support stay recorded observations (coverage.config_forms)",
         "bounded: %s" % vlib.cfg_header(os.path.join(vlib.SPEC, cfg)),
     ]
